@@ -296,16 +296,16 @@ def check_one_program(case, stats=None, K=30):
     res = oracle.compile_case(srcs, opts)
     if stats is not None:
         stats.evaluations += len(case["calls"])
-    if "error" in res and "Timeout during evaluating" in res["error"]["description"]:
+    if "error" in res and oracle.helper_timeout(res["error"]["description"]):
         res = oracle.compile_case(srcs, opts)
-        if "error" in res and "Timeout during evaluating" in res["error"]["description"]:
+        if "error" in res and oracle.helper_timeout(res["error"]["description"]):
             if stats is not None:
                 stats.discarded["inconclusive:child-timeout-under-load"] += 1
             return
     lit = render(case, [fmt_literal(v) for v in exp])
     res2 = oracle.compile_case(lit, opts)
     if "error" in res:
-        if "error" in res2 and "out of registers" in res2["error"]["description"]:
+        if "error" in res2 and oracle.out_of_registers(res2["error"]["description"]):
             if stats is not None:
                 stats.discarded["reject:registers"] += 1
             return
